@@ -1,7 +1,7 @@
 (** Extraction of the executable models to OCaml (oracle for the
     correspondence checks).  ExtrOcamlBasic only; N/positive/nat stay the
     extracted inductive types. *)
-From XZ Require Import Base Crc Sha256 Bcj BcjInst CodeWrap C11Lemmas Lzma Lzma2 Xz Formats IndexModel XzNames Outq RcAbs RcDec RcEnc LzmaEnc LzmaRun Lzma2Enc.
+From XZ Require Import Base Crc Sha256 Bcj BcjInst CodeWrap C11Lemmas Lzma Lzma2 Xz Formats IndexModel XzNames Outq RcAbs RcDec RcEnc LzmaEnc LzmaRun Lzma2Enc XzEnc.
 Require Extraction.
 Require Import ExtrOcamlBasic.
 Extraction Language OCaml.
@@ -20,5 +20,5 @@ Extraction "xzmodel"
   Outq.run Outq.step Outq.outq0
   RcEnc.encode Lzma.prob_update Lzma.rc_init Lzma.rc_decode_bit Lzma.rc_direct1 Lzma.rc_normalize
   LzmaRun.enc_run LzmaRun.z_init LzmaEnc.enc_eopm Lzma.symbol Lzma.lz_start Lzma.rc_bit
-  Lzma2Enc.kl_start Lzma2Enc.kl_props Lzma2Enc.chunk_after Lzma2Enc.chunks_bytes Lzma2Enc.norm Lzma2.l2_init
+  XzEnc.stream_bytes Lzma2Enc.kl_start Lzma2Enc.kl_props Lzma2Enc.chunk_after Lzma2Enc.chunks_bytes Lzma2Enc.norm Lzma2.l2_init
   Lzma.P_IS_MATCH Lzma.P_IS_REP Lzma.P_IS_REP0 Lzma.P_IS_REP0_LONG Lzma.P_IS_REP1 Lzma.P_IS_REP2.
